@@ -179,6 +179,7 @@ type Sched struct {
 	vnow    time.Duration
 	doneMap map[<-chan struct{}]*cancelCtx
 	timers  bool
+	quiet   bool // decisions take the default alternative and open no branches (SetQuiet)
 
 	Panics []PanicInfo
 	// User is the harness's per-execution observation record.
